@@ -20,12 +20,12 @@ import (
 // ---------------------------------------------------------------- readers
 
 type chunkReader struct {
-	data   []byte
-	sizes  []int // successive read sizes; then 'rest' bytes per read
-	rest   int
-	zeroAt map[int]bool // read numbers that return (0, nil)
+	data        []byte
+	sizes       []int // successive read sizes; then 'rest' bytes per read
+	rest        int
+	zeroAt      map[int]bool // read numbers that return (0, nil)
 	eofWithData bool
-	n      int
+	n           int
 }
 
 func (r *chunkReader) Read(p []byte) (int, error) {
@@ -448,7 +448,7 @@ func init() {
 			"distinct = hash of dump; non-trivial = program accepted and dumped",
 		Assumptions:   []string{"Execute of the parsed program is the reference for the loaded one", "in the thorough tier the same workload also runs under the race detector build"},
 		MinNontrivial: 300,
-		Race:          func(tier string) bool { return false },
+		RaceAlso:      func(tier string) bool { return tier == "thorough" },
 		Run: func(c *core.Ctx) {
 			var i int64
 			for _, f := range c09FixedList() {
